@@ -211,7 +211,11 @@ def wl_objects(ctx, rng, i):
                               {"version": ver, "entry_point": name, "selector": s, "near_miss": kind, "object": ji, "raised_instead": other})
     # a property held only as a default the serialisation leaves out: if its selector is accepted, what is written must still contain
     # something for the selector to address
-    for name in [n for n in ji if n not in jd and pathor.fits_syntax((n,))][:3]:
+    in_default_form = {s_ for s_, _, _ in pathor.selectors(jd)}
+    nested_defaults = [(s_, segs_) for s_, segs_, _ in pathor.selectors(ji) if len(segs_) > 1 and s_ not in in_default_form and segs_[0] != "granular_markings"
+                       and ".".join(segs_[:-1]) in in_default_form]
+    rng.shuffle(nested_defaults)
+    for name, nsegs in [(n, (n,)) for n in ji if n not in jd and pathor.fits_syntax((n,))][:3] + nested_defaults[:3]:
         withgm = dict(o)
         withgm["granular_markings"] = [{"marking_ref": MARK, "selectors": [name]}]
         for ep, fn in (("parse", lambda: stix2.parse(json.dumps(withgm), allow_custom=True)), ("constructor", lambda: cls(allow_custom=True, **dict(withgm))),
@@ -230,9 +234,10 @@ def wl_objects(ctx, rng, i):
             ctx.ev()
             ctx.count("omitted_default_selector_accepted")
             ctx.nontrivial(ver, t, "omitted-default", name, ep)
+            ctx.count("omitted_default_selector_accepted_nested" if len(nsegs) > 1 else "omitted_default_selector_accepted_toplevel")
             for lab, j in (("output", out), ("output after a round trip", again)):
-                if not pathor.resolve(j, (name,))[0]:
-                    ctx.violation("selector-addresses-nothing-in-output:omitted-default", "%s accepted selector %r on a %s %s, but the %s has no such property" % (ep, name, ver, t, lab),
+                if not pathor.resolve(j, tuple(nsegs))[0]:
+                    ctx.violation("selector-addresses-nothing-in-output:omitted-default" + (":in-contained-object" if len(nsegs) > 1 else ""), "%s accepted selector %r on a %s %s, but the %s has no such property" % (ep, name, ver, t, lab),
                                   {"version": ver, "entry_point": ep, "selector": name, "output": j})
                     break
     # a (custom) property given as a tuple is written as a list: its elements are addressed like list elements
